@@ -178,10 +178,10 @@ Definition step (recheck : bool) (s : st) (a : action) : option st :=
               Some (with_shared s h (l1 ++ match c with Some p' => [TMsg p'] | None => [] end ++ sp ++ l2))
           | TResp i =>
               match trees s i with
-              | TAbsent => Some (with_shared s (shared_of s) (l1 ++ l2))      (* "ignoring unknown tree" *)
-              | _ =>
+              | TRequested =>
                   Some (mkSt (upd (trees s) i TPresent) (parked s) (delivered s) (dropped s) (finished s)
                              (l1 ++ TFlushStart i :: l2) (net s) (reqs s) (resps s) (sent s))
+              | _ => Some (with_shared s (shared_of s) (l1 ++ l2))      (* "ignoring tree that is not awaited" *)
               end
           | TFlushStart i =>
               let mine := filter (fun m => mtree m =? i) (parked s) in
